@@ -945,7 +945,16 @@ func (em *emitter) emitUnaryOp(expr *ast.UnaryOperator, reg int8, regType reflec
 		// &v[i]
 		// (where v is a slice or an addressable array)
 		case *ast.Index:
-			expr := em.emitExpr(operand.Expr, em.typ(operand.Expr))
+			var expr int8
+			if v, ok := em.varStore.nonLocalVarIndex(operand.Expr); ok && em.typ(operand.Expr).Kind() == reflect.Array {
+				// The array is a non-local variable: take the address of the
+				// element of the variable, not of a copy of its value.
+				ptr := em.fb.newRegister(reflect.Pointer)
+				em.fb.emitGetVarAddr(v, ptr)
+				expr = -ptr
+			} else {
+				expr = em.emitExpr(operand.Expr, em.typ(operand.Expr))
+			}
 			index := em.emitExpr(operand.Index, intType)
 			pos := operand.Expr.Pos()
 			if canEmitDirectly(exprType.Kind(), regType.Kind()) {
@@ -975,7 +984,15 @@ func (em *emitter) emitUnaryOp(expr *ast.UnaryOperator, reg int8, regType reflec
 				expr = op.Expr
 			}
 			operandExprType := em.typ(expr)
-			exprReg := em.emitExpr(expr, operandExprType)
+			var exprReg int8
+			if v, ok := em.varStore.nonLocalVarIndex(expr); ok && operandExprType.Kind() == reflect.Struct {
+				// The struct is a non-local variable: take the address of the
+				// field of the variable, not of a copy of its value.
+				exprReg = em.fb.newRegister(reflect.Pointer)
+				em.fb.emitGetVarAddr(v, exprReg)
+			} else {
+				exprReg = em.emitExpr(expr, operandExprType)
+			}
 			var field reflect.StructField
 			if operandExprType.Kind() == reflect.Pointer {
 				field, _ = operandExprType.Elem().FieldByName(operand.Ident)
